@@ -1,4 +1,4 @@
-import NA.Proofs.C19Number4
+import NA.Proofs.C19Calm3
 import NA.Gen.NewPolicy
 /-!
 # C19 — the policy database always points to a complete, compiled policy
@@ -22,6 +22,8 @@ open NA.Gen.NewPolicy
 
 theorem safety_checked : check safety prog (infer safety prog) = true := by decide +kernel
 theorem numbering_checked : check numbering prog (infer numbering prog) = true := by decide +kernel
+theorem calm_checked : check calm prog (infer calm prog) = true := by decide +kernel
+theorem calm_forward : forward calm prog (infer calm prog) = true := by decide +kernel
 
 /-! ### Invariants over all histories, kill points and interleavings -/
 
@@ -93,7 +95,6 @@ theorem policy_numbers_strictly_increase_partial (sysEmail : Bool) (es : List Ev
     ((inv2_run safety_checked numbering_checked sysEmail es).2.n ⟨h1, h2⟩).incr
 
 def stepsN (pid n : Nat) : List Event := List.replicate n (Event.step pid)
-def lastExit (s : State) : Option Nat := (s.procs.getLast?).bind (·.exit)
 
 /-- … false without that hypothesis: a user commit lands between `git pull` and `git push` of the
 second run (push rejected), the run is killed between `rm -f $CURRENT` and `ln -s`; the third run
@@ -115,7 +116,7 @@ theorem next_run_promotes_newest_counterexample :
       (commitAt (run prog false es).g.store (run prog false es).g.remote).good = true ∧
       (run prog false es).g.staleNext = true ∧
       quiescent (runNew prog 200 (run prog false es)) = true ∧
-      lastExit (runNew prog 200 (run prog false es)) = some 0 ∧
+      exitOf (runNew prog 200 (run prog false es)) (run prog false es).npid = some 0 ∧
       (runNew prog 200 (run prog false es)).g.newest = false ∧
       (runNew prog 200 (run prog false es)).g.current = some 1 :=
   ⟨[.spawn] ++ stepsN 1 80 ++ [.commit true none true, .spawn] ++ stepsN 2 50 ++ [.kill 2], by decide +kernel⟩
@@ -126,12 +127,37 @@ theorem next_run_promotes_newest_counterexample_compile :
       quiescent (run prog false es) = true ∧
       (commitAt (run prog false es).g.store (run prog false es).g.remote).good = true ∧
       (run prog false es).g.staleNext = true ∧
-      lastExit (runNew prog 200 (run prog false es)) = some 0 ∧
+      exitOf (runNew prog 200 (run prog false es)) (run prog false es).npid = some 0 ∧
       (runNew prog 200 (run prog false es)).g.newest = false :=
   ⟨[.spawn] ++ stepsN 1 80 ++ [.commit true none true, .spawn] ++ stepsN 2 38 ++ [.kill 2], by decide +kernel⟩
 
+/-- The next undisturbed run makes the newest compiling revision current — for every history after
+which the database is quiescent, the newest revision compiles, no git command of the script has
+failed, nobody rewrote POLICY by hand, and there is no leftover `next` whose HEAD equals the remote
+head (`staleNext`, the state both F-C19 windows leave behind: the exact complement of the
+counterexamples above).  The run terminates within `prog.length + 1` commands with exit status 0. -/
+theorem next_run_promotes_newest_partial (sysEmail : Bool) (es : List Event)
+    (hq : quiescent (run prog sysEmail es) = true)
+    (hgood : (commitAt (run prog sysEmail es).g.store (run prog sysEmail es).g.remote).good = true)
+    (hstale : (run prog sysEmail es).g.staleNext = false)
+    (ht : (run prog sysEmail es).g.trouble = false) (he : (run prog sysEmail es).g.edited = false) :
+    quiescent (runNew prog (prog.length + 1) (run prog sysEmail es)) = true ∧
+    exitOf (runNew prog (prog.length + 1) (run prog sysEmail es)) (run prog sysEmail es).npid = some 0 ∧
+    (runNew prog (prog.length + 1) (run prog sysEmail es)).g.newest = true :=
+  promotes_of_checks safety_checked numbering_checked calm_checked calm_forward sysEmail es hq hgood hstale ht he
+
+/-! Non-vacuity: histories with bad commits, reverts, kills and a second invocation meet the
+hypotheses of the `_partial` theorems. -/
+example :
+    let es : List Event := [.spawn] ++ stepsN 1 80 ++ [.commit false none true, .spawn] ++ stepsN 2 30 ++ [.spawn] ++
+      stepsN 3 12 ++ stepsN 2 150 ++ [.commit true none true, .spawn] ++ stepsN 4 20 ++ [.kill 4, .commit true none false]
+    quiescent (run prog false es) = true ∧
+    (commitAt (run prog false es).g.store (run prog false es).g.remote).good = true ∧
+    (run prog false es).g.staleNext = false ∧ (run prog false es).g.trouble = false ∧
+    (run prog false es).g.edited = false ∧ (run prog false es).g.hist = [2, 1] := by decide +kernel
+
 def obligations : List Lean.Name := [
-  ``safety_checked, ``numbering_checked,
+  ``safety_checked, ``numbering_checked, ``calm_checked, ``calm_forward, ``next_run_promotes_newest_partial,
   ``current_absent_or_compiled, ``compile_ok_iff_good, ``bad_commit_never_changes_current, ``at_most_one_worker,
   ``policy_numbers_strictly_increase_partial, ``policy_numbers_strictly_increase_counterexample,
   ``next_run_promotes_newest_counterexample, ``next_run_promotes_newest_counterexample_compile]
